@@ -298,6 +298,10 @@ def _cclayers_chunk(chunk):
                     fails.append({'case': case, 'stage': 'argv-layers', 'detail': f'{out} ({flavour} flavour of {name}): the compiler receives the user arguments {got!r}; the build definition gives it {glob + proj + want!r} (each once, per-target ones in the order given)'})
             for name, fl in targets.items():
                 for f in fl:
+                    # (both flavours given the SAME arguments: meson compiles once and builds the static library from the shared
+                    # library's objects — the absence of a second set of compile statements is by design, not a lost argument)
+                    if f == 'static' and 'shared' in fl and fl['static'] == fl['shared'] and (name, 'shared') in seen:
+                        continue
                     if (name, f) not in seen:
                         fails.append({'case': case, 'stage': 'argv-layers', 'detail': f'no compile statement for the {f} flavour of {name}'})
         finally:
